@@ -7,6 +7,7 @@ import Rivaas.Lemmas.BindConv
 import Rivaas.Lemmas.BindRef
 import Rivaas.Lemmas.BindSound
 import Rivaas.Lemmas.BindMap
+import Rivaas.Lemmas.BindTyped
 import Rivaas.Model.BindObs
 /-
 C04 — Request binding is faithful, total and bounded. Property theorems.
@@ -486,5 +487,108 @@ theorem bind_frame (P : Params) (hP : FloatSane P) (cfg : Cfg) (tag : Tag) (fs :
   rw [h] at this
   simp only [toObs, Spec.specOK, Bool.and_eq_true, List.all_eq_true] at this
   exact this.2
+
+
+/-! ## 5. Several sources (Bind / BindTo, app.Context.Bind) -/
+
+/-- **type preservation.** What a bind returns is again a well-typed value of the destination type
+    (so it can be the destination of the next source). -/
+theorem bind_preserves_type (P : Params) (cfg : Cfg) (tag : Tag) (fs : List Fld) (ivs : List Val) (src : Src) (v : Val)
+    (hw : wts fs ivs = true) (hg : Spec.inGrammarFs fs = true)
+    (h : bind P cfg tag (.struct fs) (.struct ivs) src = .ok v) : ∃ rvs, v = .struct rvs ∧ wts fs rvs = true := by
+  have := lemma_bindAt_typed P cfg tag cfg.maxDepth fs ivs { src := src } 0 v hw hg (by simpa [Rivaas.Bind.bind] using h)
+  cases v with
+  | struct rvs => exact ⟨rvs, rfl, by simpa [wt] using this⟩
+  | _ => simp [wt] at this
+
+mutual
+theorem lemma_strip_wt : ∀ (t : Ty) (v : Val), wt (stripTy t) v = wt t v
+  | .struct fs, v => by
+    cases v with
+    | struct vs => simp only [stripTy, wt]; exact lemma_strip_wts fs vs
+    | _ => simp [stripTy, wt]
+  | .ptr t, v => by
+    cases v with
+    | ptr x => simp only [stripTy, wt]; exact lemma_strip_wt t x
+    | _ => simp [stripTy, wt]
+  | .slice t, v => by simp [stripTy, wt]
+  | .map t, v => by simp [stripTy, wt]
+  | .prim p, v => by simp [stripTy, wt]
+theorem lemma_strip_wts : ∀ (fs : List Fld) (vs : List Val), wts (stripFs fs) vs = wts fs vs
+  | [], vs => by cases vs <;> simp [stripFs, wts]
+  | (h, t) :: rest, [] => by simp [stripFs, wts]
+  | (h, t) :: rest, v :: vs => by simp [stripFs, wts, lemma_strip_wt t v, lemma_strip_wts rest vs]
+end
+
+mutual
+theorem lemma_strip_grammar : ∀ t : Ty, Spec.inGrammar (stripTy t) = Spec.inGrammar t
+  | .struct fs => by simp only [stripTy, Spec.inGrammar]; exact lemma_strip_grammarFs fs
+  | .ptr (.struct fs) => by simp only [stripTy, Spec.inGrammar]; exact lemma_strip_grammarFs fs
+  | .ptr (.prim p) => by simp [stripTy, Spec.inGrammar, Spec.leafTy]
+  | .ptr (.ptr t) => by simp [stripTy, Spec.inGrammar, Spec.leafTy]
+  | .ptr (.slice t) => by simp [stripTy, Spec.inGrammar, Spec.leafTy]
+  | .ptr (.map t) => by simp [stripTy, Spec.inGrammar, Spec.leafTy]
+  | .slice t => by simp [stripTy, Spec.inGrammar, Spec.leafTy]
+  | .map t => by simp [stripTy, Spec.inGrammar, Spec.leafTy]
+  | .prim p => by simp [stripTy, Spec.inGrammar, Spec.leafTy]
+theorem lemma_strip_grammarFs : ∀ fs : List Fld, Spec.inGrammarFs (stripFs fs) = Spec.inGrammarFs fs
+  | [] => by simp [stripFs, Spec.inGrammarFs]
+  | (h, t) :: rest => by simp [stripFs, Spec.inGrammarFs, lemma_strip_grammar t, lemma_strip_grammarFs rest]
+end
+
+/-- a pass over the sources (each bound with the field table of `fs'`, a copy of the type with the
+    same shape) neither panics nor leaves the type -/
+theorem lemma_bindPass (P : Params) (hP : FloatSane P) (cfg : Cfg) (fs fs' : List Fld)
+    (hsh : ∀ vs, wts fs' vs = wts fs vs) (hg : Spec.inGrammarFs fs' = true) :
+    ∀ (srcs : List Src) (ivs : List Val), (∀ s ∈ srcs, Spec.srcOK s = true) → wts fs ivs = true →
+      bindPass P cfg fs (fun _ => .struct fs') srcs (.struct ivs) ≠ .panic ∧
+      ∀ v, bindPass P cfg fs (fun _ => .struct fs') srcs (.struct ivs) = .ok v → ∃ rvs, v = .struct rvs ∧ wts fs rvs = true
+  | [], ivs, _, hw => by simp [bindPass, hw]
+  | s :: rest, ivs, hs, hw => by
+    simp only [bindPass]
+    split
+    · have hw' : wts fs' ivs = true := by rw [hsh]; exact hw
+      have hsk : Spec.srcOK s = true := hs s (by simp)
+      cases hb : bind P cfg s.kind (.struct fs') (.struct ivs) s with
+      | panic => exact absurd hb (bind_total P hP cfg s.kind fs' ivs s hw' hg hsk)
+      | err e => simp
+      | ok v =>
+        obtain ⟨rvs, hv, hwr⟩ := bind_preserves_type P cfg s.kind fs' ivs s v hw' hg hb
+        subst hv
+        exact lemma_bindPass P hP cfg fs fs' hsh hg rest rvs (fun s hs' => hs s (by simp [hs'])) (by rw [← hsh]; exact hwr)
+    · exact lemma_bindPass P hP cfg fs fs' hsh hg rest ivs (fun s hs' => hs s (by simp [hs'])) hw
+
+/-- **total, several sources.** Bind / BindTo from any list of sources never panics. -/
+theorem bindMulti_total (P : Params) (hP : FloatSane P) (cfg : Cfg) (fs : List Fld) (ivs : List Val) (srcs : List Src)
+    (hw : wts fs ivs = true) (hg : Spec.inGrammarFs fs = true) (hs : ∀ s ∈ srcs, Spec.srcOK s = true) :
+    bindMulti P cfg fs (.struct ivs) srcs ≠ .panic := by
+  unfold bindMulti
+  split
+  · simp
+  · split
+    · exact (lemma_bindPass P hP cfg fs fs (fun _ => rfl) hg srcs ivs hs hw).1
+    · have hs0 : ∀ s ∈ srcs.map (fun s => { s with kvs := [] }), Spec.srcOK s = true := by
+        intro s hs'
+        simp only [List.mem_map] at hs'
+        obtain ⟨s0, _, rfl⟩ := hs'
+        simp only [Spec.srcOK, List.all_nil, Bool.true_and]
+        cases s0.kind <;> rfl
+      have h1 := lemma_bindPass P hP cfg fs fs (fun _ => rfl) hg _ ivs hs0 hw
+      cases hb : bindPass P cfg fs (fun _ => .struct fs) (srcs.map fun s => { s with kvs := [] }) (.struct ivs) with
+      | panic => exact absurd hb h1.1
+      | err e => simp
+      | ok v =>
+        obtain ⟨rvs, hv, hwr⟩ := h1.2 v hb
+        subst hv
+        exact (lemma_bindPass P hP cfg fs (stripFs fs) (lemma_strip_wts fs) (by rw [lemma_strip_grammarFs]; exact hg)
+          srcs rvs hs hwr).1
+
+/-- with one source, Bind / BindTo is the plain bind (when the type mentions the source's tag) -/
+theorem bindMulti_single (P : Params) (cfg : Cfg) (fs : List Fld) (init : Val) (s : Src)
+    (ht : hasTagFs s.kind fs = true) :
+    bindMulti P cfg fs init [s] = bind P cfg s.kind (.struct fs) init s := by
+  simp only [bindMulti, List.isEmpty_cons, Bool.false_eq_true, if_false, List.length_singleton, beq_self_eq_true,
+    if_true, bindPass, ht]
+  cases bind P cfg s.kind (.struct fs) init s <;> rfl
 
 end Rivaas.C04
